@@ -1222,14 +1222,14 @@ func rulePanicSafeUnlock() check.Rule {
 							// a terminal notification runs the teardowns of the subscriber that receives it, and Unsubscribe
 							// re-raises their panics: sending one is calling code the library does not own
 							what, detail := "", ""
-							if name, isObs := m.Obj.ObserverMethods[model.Callee(info, call)]; isObs && notifKind(name) > 0 {
+							if name, isObs := m.Obj.ObserverMethods[model.Callee(info, call)]; isObs && notifKind(name) >= 0 {
+								// a value notification runs the observer's Next: the library's own observers recover a
+								// panicking callback, an Observer implemented by the caller need not
 								what = name
 							} else if name, isSub := m.Obj.SubscriptionMethods[model.Callee(info, call)]; isSub && name == "Unsubscribe" {
 								what = "Unsubscribe" // runs the teardowns and re-raises their panics
 							} else if k := subjectHelperKind(m, p, call); k == "broadcast" {
-								if sendsTerminal(m, p, call) {
-									what = shortCallee(info, call)
-								}
+								what = shortCallee(info, call) // notifies the stored observers: values and terminals alike
 							} else if len(res.UndeferredAt(call)) > 0 {
 								// a local closure or helper of the repository that unsubscribes / sends a terminal (Share's reset)
 								for _, b := range calleeBodies(m, p, call) {
@@ -1262,7 +1262,7 @@ func rulePanicSafeUnlock() check.Rule {
 							termSeen[base]++
 							key := fmt.Sprintf("%s#%d", base, termSeen[base])
 							what += detail
-							c.Report(armed, key, call.Pos(), "%s delivers a terminal notification (or runs teardowns) while %s is held and released only by an explicit Unlock: the receiving subscriber closes itself and runs its teardowns inside the notification, Unsubscribe re-raises a teardown's panic, and the panic unwinds past the Unlock — the lock stays held, the other observers are never notified and every later call blocks", what, held)
+							c.Report(armed, key, call.Pos(), "%s delivers a notification (or runs teardowns) while %s is held and released only by an explicit Unlock: a terminal makes the receiving subscriber run its teardowns, whose panics Unsubscribe re-raises, and a value runs an observer that, when it is the caller's own implementation, nothing recovers; the panic unwinds past the Unlock — the lock stays held, the other observers are never notified and every later call blocks", what, held)
 							return true
 						}
 						if _, isSig := fv.Type().Underlying().(*types.Signature); !isSig {
